@@ -1,6 +1,193 @@
-/- Driver/C15 — stub until the property's model driver is written. -/
+/-
+Driver/C15 — runs the Ribbit server/client model (Model/RibbitFmt, Model/Bpsv) on protocol lines.
+Strings travel as hex of their UTF-8 bytes (`-` = empty, `~` = absent optional field).
+-/
 import Driver.Common
-open Drv
+import Cascette.Model.RibbitFmt
+import Cascette.Spec.Sha256Fips
+open Cascette Drv
+open Cascette.Model.Bpsv Cascette.Model.Ribbit
+
+def bytesOfNats (l : List Nat) : ByteArray := ByteArray.mk (l.map (·.toUInt8)).toArray
+
+/-- hex → text, `none` when the bytes are not UTF-8. -/
+def strOfHex (s : String) : Option (Option Str) :=
+  (parseHexNat s).map fun bs => (String.fromUTF8? (bytesOfNats bs)).map (·.toList)
+
+def hexOfStr (s : Str) : String := hexOfNats ((String.ofList s).toUTF8.toList.map (·.toNat))
+
+/-- lower-case hex SHA-256 of the UTF-8 bytes. -/
+def H (s : Str) : Str := Spec.Sha256Fips.hexDigest (String.ofList s).toUTF8
+
+structure St where
+  seqn : Nat := 0
+  hosts : Str := []
+  path : Str := []
+  recs : List Record := []
+  server : Option Server := none
+
+def optField (s : String) : Option (Option Str) :=
+  if s == "~" then some none else
+  match strOfHex s with
+  | some (some t) => some (some t)
+  | _ => none
+
+def strField (s : String) : Option Str :=
+  match strOfHex s with
+  | some (some t) => some t
+  | _ => none
+
+def parseRec : List String → Option Record
+  | [id, p, v, b, bc, cc, kr, pc, bt, ee, re, ie, de, cp] => do
+    let id ← id.toNat?
+    let p ← strField p; let v ← strField v; let b ← strField b
+    let bc ← strField bc; let cc ← strField cc
+    let kr ← optField kr; let pc ← optField pc
+    let bt ← strField bt; let ee ← strField ee; let re ← strField re
+    let ie ← strField ie; let de ← strField de; let cp ← optField cp
+    pure ⟨id, p, v, b, bc, cc, kr, pc, bt, ee, re, ie, de, cp⟩
+  | _ => none
+
+def showValue (raw : Str) : Value → String
+  | .str _ => hexOfStr raw ++ ":s"
+  | .empty => hexOfStr raw ++ ":e"
+  | .hex b => hexOfStr raw ++ ":h" ++ hexOfNats b
+  | .dec n => hexOfStr raw ++ ":d" ++ toString n
+
+def zipShow : List Str → List Value → List String
+  | r :: rs, v :: vs => showValue r v :: zipShow rs vs
+  | _, _ => []
+
+/-- canonical text of a parsed document; `tsub = some S`: the sequence number `S` (and, for the
+summary, column 2 equal to `S`) is printed as `T` (the real server uses the wall clock). -/
+def showDoc (tsub : Option Nat) (sumCol : Bool) (d : Doc) : String :=
+  let sq := match d.seqn, tsub with
+    | none, _ => "-"
+    | some n, some s => if n = s then "T" else toString n
+    | some n, none => toString n
+  let row (r : Row) : String :=
+    let cells := zipShow r.raw r.vals
+    let cells := match tsub, cells, r.raw with
+      | some s, [a, _], [_, b] => if sumCol ∧ b = natDigits s then [a, "T"] else cells
+      | _, _, _ => cells
+    ",".intercalate cells
+  s!"ok seqn={sq} fields={d.fields.length} rows={d.rows.length} " ++ ";".intercalate (d.rows.map row)
+
+def showClient (tsub : Option Nat) (sumCol : Bool) : Except ClientErr Doc → String
+  | .ok d => showDoc tsub sumCol d
+  | .error (.bpsv e) => "err:" ++ e.name
+  | .error .checksum => "err:checksum"
+  | .error .mime => "err:mime"
+  | .error .http404 => "err:http-404"
+
+def isPerm (a b : List Str) : Bool :=
+  a.length == b.length && a.all (fun x => b.contains x) && b.all (fun x => a.contains x)
+
+def kv (pre : String) (t : String) : Option String :=
+  if t.startsWith pre then some (t.drop pre.length).toString else none
+
+def endpointStr (ep : String) : Str := ep.toList
+
+def step (st : St) : List String → St × String
+  | ["begin", sq, h, p] =>
+    match (kv "seqn=" sq).bind String.toNat?, (kv "hosts=" h).bind strField, (kv "path=" p).bind strField with
+    | some s, some h, some p => ({ seqn := s, hosts := h, path := p }, "ok")
+    | _, _, _ => (st, "bad-op")
+  | "rec" :: fs =>
+    match parseRec fs with
+    | some r =>
+      ({ st with recs := st.recs ++ [r] },
+        match validate r with
+        | none => "ok"
+        | some f => "err:" ++ f)
+    | none => (st, "bad-op")
+  | ["load", order] =>
+    match load st.recs with
+    | .error f => (st, "err:" ++ f)
+    | .ok db =>
+      let ord : Option (List Str) :=
+        if order == "-" then some [] else (order.splitOn ",").mapM strField
+      match ord with
+      | none => (st, "bad-op")
+      | some ord =>
+        if !isPerm ord (products db) then (st, "bad-order") else
+        ({ st with server := some ⟨db, defaultCdn st.hosts st.path, ord⟩ },
+          s!"ok products={(products db).length} total={db.length}")
+  | ["latest", p] =>
+    match st.server, strField p with
+    | some sv, some p =>
+      (st, match latest sv.db p with
+        | some r => toString r.id
+        | none => "none")
+    | _, _ => (st, "bad-op")
+  | ["cmd", sq, c] =>
+    match st.server, sq.toNat?, strField c with
+    | some sv, some sq, some c =>
+      (st, match handleCommand H sv sq c with
+        | some r => "ok " ++ hexOfStr r
+        | none => "err")
+    | _, _, _ => (st, "bad-op")
+  | ["conn", sq, b] =>
+    match st.server, sq.toNat?, parseHexNat b with
+    | some sv, some sq, some bs =>
+      let line := (String.fromUTF8? (bytesOfNats (firstLine bs))).map (·.toList)
+      (st, match handleConnection H sv sq line with
+        | some r => "ok " ++ hexOfStr r
+        | none => "closed")
+    | _, _, _ => (st, "bad-op")
+  | ["hold", b] =>
+    match st.server, parseHexNat b with
+    | some _, some bs => (st, if bs.contains 10 then "bad-op" else "pending")
+    | _, _ => (st, "bad-op")
+  | ["http", sq, p] =>
+    match st.server, sq.toNat?, strField p with
+    | some sv, some sq, some p =>
+      (st, match handleHttp sv sq p with
+        | some r => "200 " ++ hexOfStr r
+        | none => "404")
+    | _, _, _ => (st, "bad-op")
+  | ["parse", t] =>
+    match strOfHex t with
+    | some (some t) => (st, showClient none false (liftParse t))
+    | some none => (st, "err:utf8")
+    | none => (st, "bad-op")
+  | ["client", tr, p, ep] =>
+    match st.server, strField p with
+    | some sv, some p =>
+      let path := ("products/" ++ String.ofList p ++ "/" ++ ep).toList
+      let r :=
+        if tr == "v1" then some (clientTcp H (tcpExchange H sv st.seqn ("v1/".toList ++ path)))
+        else if tr == "v2" then some (clientTcp H (tcpExchange H sv st.seqn ("v2/".toList ++ path)))
+        else if tr == "http" then some (clientHttp (handleHttp sv st.seqn ('/' :: p ++ '/' :: ep.toList)))
+        else none
+      (st, match r with
+        | some r => showClient (some st.seqn) false r
+        | none => "bad-op")
+    | _, _ => (st, "bad-op")
+  | ["clientsum"] =>
+    match st.server with
+    | some sv =>
+      (st, showClient (some st.seqn) true
+        (clientTcp H (tcpExchange H sv st.seqn "v1/summary".toList)))
+    | none => (st, "bad-op")
+  | ["clientx", _, _, _] => (st, if st.server.isSome then "skip" else "bad-op")
+  | ["storm", _, reqs] =>
+    match st.server, (reqs.splitOn ",").mapM parseHexNat with
+    | some sv, some rs =>
+      let one (bs : List Nat) : String :=
+        let line := (String.fromUTF8? (bytesOfNats (firstLine bs))).map (·.toList)
+        match handleConnection H sv st.seqn line with
+        | some r => s!"reply:{(String.ofList r).utf8ByteSize}"
+        | none => "closed"
+      (st, ",".intercalate (rs.map one))
+    | _, _ => (st, "bad-op")
+  | ["sha", b] =>
+    match parseHexNat b with
+    | some bs => (st, String.ofList (Spec.Sha256Fips.hexDigest (bytesOfNats bs)))
+    | none => (st, "bad-op")
+  | _ => (st, "bad-op")
 
 def main : IO Unit := do
-  loopPure (← IO.getStdin) (← IO.getStdout) (fun _ => "bad-op")
+  let stdin ← IO.getStdin
+  let stdout ← IO.getStdout
+  loopState stdin stdout step {}
